@@ -587,6 +587,27 @@ def _dis_source(kind, lang):
             "    impl %sUser {\n        pub fn take(&self, x: %s) -> u8 { 0 }\n%s    }\n}\n" % (lang, decl, holder, t, t, use, hm))
 
 
+ZST = """// zero-sized (field-less) struct as a Result arm next to a real payload, and 'static slices as parameters
+#[diplomat::bridge]
+pub mod ffi {
+    #[diplomat::opaque]
+    pub struct ZsOp;
+    pub struct ZsErr {}
+    pub struct ZsSt { pub a: u8 }
+    impl ZsOp {
+        pub fn a(&self) -> Result<Box<ZsOp>, ZsErr> %(U)s
+        pub fn b(&self) -> Result<i32, ZsErr> %(U)s
+        pub fn c(&self) -> Result<(), ZsErr> %(U)s
+        pub fn d(&self) -> Result<ZsSt, ZsErr> %(U)s
+        pub fn e(&self) -> Result<ZsErr, i32> %(U)s
+        #[diplomat::attr(not(supports = static_slices), disable)]
+        pub fn st(&self, s: &'static [u16], t: &'static str, u: &'static [f64]) -> u8 { 0 }
+        #[diplomat::attr(not(supports = static_slices), disable)]
+        pub fn st_ret(&self, s: &'static [u8]) -> &'static [u8] { s }
+    }
+}
+""" % {"U": U}
+
 # callbacks: every parameter kind and every return kind in a type of its own (file name = construct)
 CB_PARAM_KINDS = [("none", ""), ("prim", "u8"), ("prims", "i32, f64, bool"), ("char", "DiplomatChar"), ("enum", "CbEn"), ("struct", "CbSt"),
                   ("opaque-ref", "&CbOp"), ("opaque-mut", "&mut CbOp"), ("opt-opaque-ref", "Option<&CbOp>"), ("str", "&str"), ("str16", "&DiplomatStr16"),
@@ -637,7 +658,7 @@ def cb_source(items, sfx=""):
     return "#[diplomat::bridge]\npub mod ffi {\n" + CB_PRELUDE % {"x": sfx} + "".join(s for (_n, _l, s) in items) + "}\n"
 
 
-SHAPE_GROUPS = {"attrs": ATTRS, "cyc": CYC, "multi": MULTI, "ns": NS, "ren": REN}
+SHAPE_GROUPS = {"attrs": ATTRS, "cyc": CYC, "multi": MULTI, "ns": NS, "ren": REN, "zst": ZST}
 # groups that a backend may refuse (not counted as an accepted module there)
 OPTIONAL_GROUPS = {"dis_%s_%s" % (k, l): _dis_source(k, l) for k in ("st", "en", "op") for l in ("c", "cpp", "js")}
 # `use crate::ma::..` in MULTI is resolved by rustc through these re-exports at the crate root (the tool sees multi.rs as root)
